@@ -463,7 +463,7 @@ def run(m, chk):
     from .extra import end_exact
 
     nee = end_exact(r, chk, ["calculus.Integrate.scalar", "calculus.Integrate.density", "calculus.Integrate.function"])
-    chk.floor("END-EXACT", "maps of possibly closed reference nodes onto an interval", nee, 3)
+    chk.floor("END-EXACT", "maps of reference nodes onto an interval examined", nee, 3)
     from .extra import div_by_value
 
     div_by_value(r, chk, ["calculus.Integrate.scalar", "calculus.Integrate.density", "calculus.Integrate.lenght"])
